@@ -19,6 +19,4 @@ CONSTANTS
   Dev_AotOverwrites = FALSE
   Dev_BoolAsInt = FALSE
 INVARIANT Refines
-INVARIANT AbsLaws
-INVARIANT Emit2
 CHECK_DEADLOCK FALSE
